@@ -62,11 +62,30 @@ T2Conn ==
        /\ \E k \in Ks : \/ conns[k].p = Ev.d /\ conns[k].ca = EvAddr /\ ScoAccept(k, Ev.h)
                         \/ conns[k].c = Ev.d /\ conns[k].pa = EvAddr /\ ScoAccepted(k, Ev.h)
 
+\* A Disconnect command names a HANDLE.  The virtual controller hands out the lowest free handle, so a handle is re-used
+\* at once: a Disconnect that is still on its way to the controller when the connection it was meant for goes away (the
+\* peer was faster) is executed against whatever connection holds that handle when it arrives.  The host did ask for
+\* it - the property does not say which connection a handle denotes across such a race - so this is an accepted
+\* explanation of a Disconnection Complete (both ends are still told); the request of the old connection is consumed.
+StaleDisc(t) ==
+    \E k0 \in Ks, s0 \in Sides :
+        /\ k0 # t[1] /\ Dev(k0, s0) = Ev.d /\ conns[k0].h[s0] = Ev.h
+        /\ conns[k0].want[s0] /\ ~conns[k0].ctl[s0]
+        /\ Idle /\ conns[t[1]].ctl[t[2]] /\ ~conns[t[1]].want[t[2]]
+        /\ conns' = [conns EXCEPT ![k0].want[s0] = FALSE,
+                                  ![t[1]].ctl[t[2]] = FALSE,
+                                  ![t[1]].link = IF @ = "failed" THEN @ ELSE "closed",
+                                  ![t[1]].out[t[2]] = Append(@, TERM)]
+        /\ evq' = [evq EXCEPT ![Dev(t[1], t[2])] = Append(@, EvDisc(t[1], t[2]))]
+        /\ quiesced' = FALSE
+        /\ UNCHANGED <<adv, advd, scan, pend, call, rets, heard, seen, cnt>>
+
 T2Disc ==
     \E t \in CtlEnd(Ev.d, Ev.h) :
         \/ CtrlDisc(t[1], t[2])
         \/ \E k \in Ks, s \in Sides : LinkTerm(k, s, t)
         \/ t[2] = "c" /\ ConnFail(t[1])
+        \/ StaleDisc(t)
 
 T2Acl ==
     \E t \in CtlEnd(Ev.d, Ev.h), k \in Ks, s \in Sides :
